@@ -180,6 +180,16 @@ func (ex *Exec) ev(e SExpr, env *Env) Val {
 		case "-":
 			ex.wantSort(v, SortInt, "-")
 			return TV(Neg(v.T), v.Ty)
+		case "*":
+			// *p for a pointer to a scalar / slice / string / interface variable
+			if v.Kind == VTerm && v.T.Sort == SortInt && v.Ty != nil {
+				if et, ok := derefPtr(v.Ty); ok {
+					if hn, fs, ok := ptrCellHeap(et); ok {
+						return TV(Select(ex.heapIn(env, hn, ArraySort(fs)), v.T), et)
+					}
+				}
+			}
+			specFail("*x: not a pointer to a scalar, slice, string or interface variable")
 		}
 	case *SBin:
 		return ex.evBin(x, env)
